@@ -3,7 +3,7 @@ import ast
 import itertools
 
 from .common import (ctx, family, returns, calls_in_ctx, reach_from_succ, site, srcs_text, escape_check, resolve_call,
-                     self_attr, const_bool)
+                     self_attr, const_bool, int_truthiness_uses)
 from ..flow import callee_attr
 from ..loader import AnalysisError, norm
 
@@ -57,8 +57,9 @@ def satisfy_table(cx, loopvar='entry'):
                     if r:
                         return r
                 return r
-            if t == f'{ev}.can_be_prefix':
-                return A
+            if t == f'{ev}.can_be_prefix' or (isinstance(e, ast.Attribute) and e.attr == 'can_be_prefix' and isinstance(e.value, ast.Attribute)
+                                              and isinstance(e.value.value, ast.Name) and e.value.value.id == ev):
+                return A            # read through a stored object: same flag; whether it is a snapshot is C03.PRV.3
             if t == isp:
                 return B
             if t in (f'len({ev}.implicit_sha256) > 0', f'{ev}.implicit_sha256', f'len({ev}.implicit_sha256) != 0',
@@ -139,6 +140,75 @@ def done_guard_after_await(R, oid, cx):
                    site(cx, c))
         else:
             R.ok(oid, inst, site(cx, c), f'{len(guards)} guard test(s) after the last await')
+
+
+def deadline_rule(R, oid, app):
+    """the wait on the pending future is bounded by deadline - now, the deadline being an absolute clock reading taken when the
+    Interest was expressed (shared by C03.PRV.2 and C05.PRV.2)"""
+    P = R.P
+    wq = app + '._wait_for_data'
+    w = ctx(R, wq)
+    ex = ctx(R, app + '.express_raw_interest')
+    waitc = calls_in_ctx(ex, attr='_wait_for_data')
+    R.need(waitc, f'{app}.express_raw_interest: no _wait_for_data call')
+    wfs_ = [(n, c) for (n, c) in calls_in_ctx(w) if ast.unparse(c.func).endswith('wait_for')]
+    R.need(wfs_, f'{wq}: no wait_for on the future')
+    wfs = [(n, c) for (n, c) in calls_in_ctx(w) if ast.unparse(c.func).endswith('wait_for')]
+    (wn_, wc_) = wfs[0]
+    tmo = next((k.value for k in wc_.keywords if k.arg == 'timeout'), wc_.args[1] if len(wc_.args) > 1 else None)
+    inst = f'{wq} :: wait_for timeout'
+    if tmo is None:
+        R.fail(oid, inst, wq, wc_, 'the wait has no time-out', site(w, wc_))
+    else:
+        wparams = [a.arg for a in w.f.node.args.args]
+        dl_params = set()
+        seen_txt = []
+        todo = [(wn_, x) for x in ast.walk(tmo) if isinstance(x, ast.Name)]
+        visited = set()
+        while todo:
+            (nd, nm) = todo.pop()
+            for s_ in w.sources(nd, nm):
+                key = (s_.kind, s_.text())
+                if key in visited:
+                    continue
+                visited.add(key)
+                seen_txt.append(s_.text())
+                if s_.kind == 'expr':
+                    e_ = s_.expr
+                    for b in ast.walk(e_):
+                        if isinstance(b, ast.BinOp) and isinstance(b.op, ast.Sub) and isinstance(b.left, ast.Name) \
+                                and b.left.id in wparams and any(isinstance(c, ast.Call) and callee_attr(c) in ('timestamp',) or
+                                                                 (isinstance(c, ast.Call) and ast.unparse(c.func) == 'timestamp')
+                                                                 for c in ast.walk(b.right)):
+                            dl_params.add(b.left.id)
+                    todo += [(s_.node, x) for x in ast.walk(e_) if isinstance(x, ast.Name) and x.id not in wparams]
+        okdl = False
+        if dl_params:
+            dp = dl_params.pop()
+            idx = wparams.index(dp) - 1
+            (xn, xc) = waitc[0]
+            if idx < len(xc.args):
+                asrcs = ex.sources(xn, xc.args[idx])
+                # the deadline must be rooted in a clock reading taken in express_raw_interest
+                def rooted(srcs_, depth=0):
+                    for a_ in srcs_:
+                        if a_.kind == 'expr' and any(isinstance(c, ast.Call) and (callee_attr(c) == 'timestamp' or ast.unparse(c.func) == 'timestamp')
+                                                     for c in ast.walk(a_.expr)):
+                            return True
+                        if a_.kind == 'aug' and depth < 3:
+                            tgt = a_.expr.target
+                            prev = [(d_, v_) for (d_, v_) in a_.ctx.cfg.defs_reaching(a_.node, tgt.id)] if isinstance(tgt, ast.Name) else []
+                            for (d_, v_) in prev:
+                                if isinstance(v_, ast.AST) and any(isinstance(c, ast.Call) and (callee_attr(c) == 'timestamp' or ast.unparse(c.func) == 'timestamp')
+                                                                   for c in ast.walk(v_)):
+                                    return True
+                    return False
+                okdl = rooted(asrcs)
+        if okdl:
+            R.ok(oid, inst, site(w, wc_), 'timeout <- deadline - now, deadline <- clock reading at express time')
+        else:
+            R.fail(oid, inst, wq, wc_, 'the lifetime is counted from the first await of the returned coroutine, not from the moment '
+                   f'the Interest was expressed (timeout derives from {sorted(set(seen_txt))[:4]})', site(w, wc_))
 
 
 def run(R):
@@ -458,62 +528,7 @@ def run(R):
             R.ok('C03.ORD.1', inst, site(ex, apps[0][1]))
         # ------------------------------------------------------------ PRV.2 deadline fixed at express time
         R.ob('C03.PRV.2', 'the time-out of the wait is computed from an absolute deadline fixed when the Interest is expressed')
-        wfs = [(n, c) for (n, c) in calls_in_ctx(w) if ast.unparse(c.func).endswith('wait_for')]
-        (wn_, wc_) = wfs[0]
-        tmo = next((k.value for k in wc_.keywords if k.arg == 'timeout'), wc_.args[1] if len(wc_.args) > 1 else None)
-        inst = f'{wq} :: wait_for timeout'
-        if tmo is None:
-            R.fail('C03.PRV.2', inst, wq, wc_, 'the wait has no time-out', site(w, wc_))
-        else:
-            wparams = [a.arg for a in w.f.node.args.args]
-            dl_params = set()
-            seen_txt = []
-            todo = [(wn_, x) for x in ast.walk(tmo) if isinstance(x, ast.Name)]
-            visited = set()
-            while todo:
-                (nd, nm) = todo.pop()
-                for s_ in w.sources(nd, nm):
-                    key = (s_.kind, s_.text())
-                    if key in visited:
-                        continue
-                    visited.add(key)
-                    seen_txt.append(s_.text())
-                    if s_.kind == 'expr':
-                        e_ = s_.expr
-                        for b in ast.walk(e_):
-                            if isinstance(b, ast.BinOp) and isinstance(b.op, ast.Sub) and isinstance(b.left, ast.Name) \
-                                    and b.left.id in wparams and any(isinstance(c, ast.Call) and callee_attr(c) in ('timestamp',) or
-                                                                     (isinstance(c, ast.Call) and ast.unparse(c.func) == 'timestamp')
-                                                                     for c in ast.walk(b.right)):
-                                dl_params.add(b.left.id)
-                        todo += [(s_.node, x) for x in ast.walk(e_) if isinstance(x, ast.Name) and x.id not in wparams]
-            okdl = False
-            if dl_params:
-                dp = dl_params.pop()
-                idx = wparams.index(dp) - 1
-                (xn, xc) = waitc[0]
-                if idx < len(xc.args):
-                    asrcs = ex.sources(xn, xc.args[idx])
-                    # the deadline must be rooted in a clock reading taken in express_raw_interest
-                    def rooted(srcs_, depth=0):
-                        for a_ in srcs_:
-                            if a_.kind == 'expr' and any(isinstance(c, ast.Call) and (callee_attr(c) == 'timestamp' or ast.unparse(c.func) == 'timestamp')
-                                                         for c in ast.walk(a_.expr)):
-                                return True
-                            if a_.kind == 'aug' and depth < 3:
-                                tgt = a_.expr.target
-                                prev = [(d_, v_) for (d_, v_) in a_.ctx.cfg.defs_reaching(a_.node, tgt.id)] if isinstance(tgt, ast.Name) else []
-                                for (d_, v_) in prev:
-                                    if isinstance(v_, ast.AST) and any(isinstance(c, ast.Call) and (callee_attr(c) == 'timestamp' or ast.unparse(c.func) == 'timestamp')
-                                                                       for c in ast.walk(v_)):
-                                        return True
-                        return False
-                    okdl = rooted(asrcs)
-            if okdl:
-                R.ok('C03.PRV.2', inst, site(w, wc_), 'timeout <- deadline - now, deadline <- clock reading at express time')
-            else:
-                R.fail('C03.PRV.2', inst, wq, wc_, 'the lifetime is counted from the first await of the returned coroutine, not from the moment '
-                       f'the Interest was expressed (timeout derives from {sorted(set(seen_txt))[:4]})', site(w, wc_))
+        deadline_rule(R, 'C03.PRV.2', app)
         # ------------------------------------------------------------ REL.2
         tm = ctx(R, nodeq + '.timeout')
         futp = tm.f.node.args.args[1].arg
@@ -560,6 +575,37 @@ def run(R):
             R.fail('C03.REL.2', inst, cu.qual, 'def _clean_up', 'the PIT is not emptied on shutdown', site(cu, cu.f.node))
         else:
             R.ok('C03.REL.2', inst, site(cu, lpn[0].ast))
+        # ------------------------------------------------------------ NUL.1 lifetime 0 is a lifetime
+        R.ob('C03.NUL.1', 'the Interest lifetime (optional integer) is tested with `is None`, never by truthiness, where the deadline is computed')
+        nuses = 0
+        for fq in (app + '.express_raw_interest', app + '.express_interest' if fr == 'v1' else app + '.express'):
+            for cxx in family(R, fq):
+                for (e, dsc) in int_truthiness_uses(P, cxx):
+                    if 'lifetime' not in dsc:
+                        continue
+                    nuses += 1
+                    R.fail('C03.NUL.1', f'{cxx.qual} :: {norm(e)[:80]}', cxx.qual, e, f'{dsc} is tested by truthiness: a lifetime of 0 is taken for "absent" and the '
+                           'default lifetime is used, so Data arriving after the real deadline still completes the Interest', site(cxx, e))
+        if not nuses:
+            R.ok('C03.NUL.1', f'{app} :: lifetime presence tests', site(ex, ex.f.node))
+        # ------------------------------------------------------------ PRV.3 the pending entry is a snapshot
+        R.ob('C03.PRV.3', 'a pending entry keeps copies of the flags that decide matching (CanBePrefix, MustBeFresh, digest), not a reference to the '
+                          'caller\'s InterestParam object')
+        ai = ctx(R, nodeq + '.append_interest')
+        mk = [c for (n, c) in calls_in_ctx(ai) if isinstance(c.func, ast.Name) and c.func.id == 'PendingIntEntry']
+        R.need(len(mk) == 1, f'{nodeq}.append_interest: PendingIntEntry(...) not found')
+        mutable_params = set()
+        for a in ai.f.node.args.args:
+            mc_ = P.ann_class(ai.f.mod, a.annotation) if a.annotation is not None else None
+            if mc_ and mc_ in P.classes and mc_[1] in ('InterestParam', 'MetaInfo', 'SignatureInfo'):
+                mutable_params.add(a.arg)
+        inst = f'{nodeq}.append_interest :: entry stores values, not the parameter object'
+        alias = [a for a in list(mk[0].args) + [k.value for k in mk[0].keywords] if isinstance(a, ast.Name) and a.id in mutable_params]
+        if alias:
+            R.fail('C03.PRV.3', inst, ai.qual, mk[0], f'the pending entry keeps a reference to the caller\'s `{alias[0].id}` object: matching is decided by whatever the '
+                   'application has stored in it when Data arrives, not by what was sent', site(ai, mk[0]))
+        else:
+            R.ok('C03.PRV.3', inst, site(ai, mk[0]), f'{len(mk[0].args)} scalar arguments')
     # siblings
     R.ob('C03.SIB.1', 'v1 and v2 matching tables are equal')
     if tables['v1'] == tables['v2']:
